@@ -32,7 +32,7 @@ FIELDS = [('_state', 'ostate'), ('_started_at', 'optint'), ('_stopped_at', 'opti
           ('_splits', 'splits'), ('_duration', 'optint')]
 FIELD_TY = dict(FIELDS)
 COQ_TY = {'int': 'Z', 'bool': 'bool', 'none': 'unit', 'self': 'unit', 'optint': 'option Z', 'ostate': 'ostate',
-          'splits': 'list split', 'split': 'split', 'slit': 'bytes'}
+          'splits': 'list split', 'split': 'split', 'slit': 'bytes', 'optobj': 'option unit', 'obj': 'unit', 'optbool': 'option bool'}
 EXNS = {'RuntimeError', 'ValueError', 'TypeError', 'IndexError', 'KeyError', 'AttributeError', 'OverflowError'}
 RESERVED = {'clk', 'tt', 'Some', 'None', 'Ok', 'Exn', 'fun', 'let', 'in', 'match', 'with', 'end', 'if', 'then', 'else',
             'forall', 'exists', 'Type', 'Prop', 'Set', 'fix', 'as', 'return', 'nil', 'cons', 'true', 'false', 'S', 'O'}
@@ -122,12 +122,12 @@ class MethodTr:
             raise Unsupported('constant %r' % (v,))
         if isinstance(e, ast.Name):
             if e.id == 'self': return k('tt', 'self')
-            if e.id in env.narrow: return k(env.narrow[e.id], 'int')
+            if e.id in env.narrow: return k(*env.narrow[e.id])
             if e.id not in env.types: raise Unsupported('unknown name ' + e.id)
             return k(e.id, env.types[e.id])
         if isinstance(e, ast.Attribute) and isinstance(e.value, ast.Name) and e.value.id == 'self':
             if e.attr not in FIELD_TY: raise Unsupported('attribute self.' + e.attr)
-            if s in env.narrow: return k(env.narrow[s], 'int')
+            if s in env.narrow: return k(*env.narrow[s])
             return k('self_' + e.attr, FIELD_TY[e.attr])
         if isinstance(e, ast.Attribute):
             if e.attr not in self.ctx.split_props: raise Unsupported('attribute .' + e.attr)
@@ -158,8 +158,8 @@ class MethodTr:
             op, right = e.ops[0], e.comparators[0]
             if isinstance(op, (ast.Is, ast.IsNot)) and isinstance(right, ast.Constant) and right.value is None:
                 def kk(t, ty):
-                    if ty == 'int': txt = 'false'         # narrowed: known not to be None
-                    elif ty == 'optint': txt = '(match %s with None => true | Some _ => false end)' % t
+                    if ty in ('int', 'obj'): txt = 'false'         # narrowed: known not to be None
+                    elif ty in ('optint', 'optobj'): txt = '(match %s with None => true | Some _ => false end)' % t
                     else: raise Unsupported('is None on a %s' % ty)
                     return k(txt if isinstance(op, ast.Is) else '(negb %s)' % txt, 'bool')
                 return self.ev(e.left, env, kk)
@@ -266,9 +266,9 @@ class MethodTr:
             is_field = isinstance(x, ast.Attribute) and isinstance(x.value, ast.Name) and x.value.id == 'self' and x.attr in FIELD_TY
             if (isinstance(x, ast.Name) or is_field) and key not in env.narrow:
                 ty = FIELD_TY[x.attr] if is_field else env.types.get(x.id)
-                if ty != 'optint': raise Unsupported('is None on %s : %s' % (key, ty))
+                if ty not in ('optint', 'optobj'): raise Unsupported('is None on %s : %s' % (key, ty))
                 var = self.fresh('some')
-                e_some = env.copy(); e_some.narrow[key] = var
+                e_some = env.copy(); e_some.narrow[key] = (var, 'int' if ty == 'optint' else 'obj')
                 e_none = env.copy()
                 some_k, none_k = (T, E) if isinstance(test.ops[0], ast.IsNot) else (E, T)
                 return 'match %s with Some %s => (\n%s)\n| None => (\n%s) end' % (
@@ -286,6 +286,8 @@ class MethodTr:
         if want == 'optint' and ty == 'int': t = '(Some %s)' % t
         elif want == 'optint' and ty == 'nonelit': t = 'None'
         elif want == 'none' and ty == 'nonelit': t = 'tt'
+        elif want == 'optbool' and ty == 'nonelit': t = 'None'
+        elif want == 'optbool' and ty == 'bool': t = '(Some %s)' % t
         elif ty != want: raise Unsupported('return of a %s from %s (declared %s)' % (ty, self.name, want))
         return '(%s, Ok %s)' % (STATE, t)
 
@@ -418,7 +420,7 @@ METHODS = [
     ('has_stopped', 'gen_has_stopped', [], 'bool', []),
     ('splits', 'gen_splits', [], 'splits', ['property']),
     ('__enter__', 'gen_enter', [], 'self', []),
-    ('__exit__', 'gen_exit', [('type', None, None, None), ('value', None, None, None), ('traceback', None, None, None)], 'none', []),
+    ('__exit__', 'gen_exit', [('type', 'optobj', None, None), ('value', 'optobj', None, None), ('traceback', 'optobj', None, None)], 'optbool', []),
     ('__init__', 'gen_init', [('duration', 'optint', 'None', 'None')], 'none', []),
 ]
 
@@ -429,7 +431,7 @@ FAILCLOSED = {'generate': [{'src': SRC, 'mod': 'oslo_utils.timeutils',
     'functions': dict([('Split.__init__', {'defaults': {}}), ('Split.elapsed', {'decorators': ['property'], 'defaults': {}}),
                        ('Split.length', {'decorators': ['property'], 'defaults': {}}),
                        ('StopWatch._delta_seconds', {'decorators': ['staticmethod'], 'defaults': {}})] +
-                      [('StopWatch.' + py, {'decorators': decos, 'defaults': {p[0]: p[2] for p in params if p[1] is not None}})
+                      [('StopWatch.' + py, {'decorators': decos, 'defaults': {p[0]: p[2] for p in params if p[1] is not None and p[2] is not None}})
                        for py, _, params, _, decos in METHODS]),
     'constants': ['now', 'StopWatch._STARTED', 'StopWatch._STOPPED'],
     'imports': {'time': 'time'}}]}
@@ -491,7 +493,7 @@ def generate():
         fn = method(cls, py)
         if decorators(fn) != decos: raise GenError('%s: decorators %s' % (py, decorators(fn)))
         real = [p for p in params if p[1] is not None]
-        plain_args(fn, ['self'] + [p[0] for p in params], [p[2] for p in real])
+        plain_args(fn, ['self'] + [p[0] for p in params], [p[2] for p in real if p[2] is not None])
         ignored = {p[0] for p in params if p[1] is None}
         for n in ast.walk(fn):
             if isinstance(n, ast.Name) and n.id in ignored: raise GenError('%s uses its parameter %s' % (py, n.id))
@@ -505,6 +507,7 @@ def generate():
         args = ''.join(' (%s : %s)' % (p[0], COQ_TY[p[1]]) for p in real)
         out.append('Definition %s (clk : nat -> Z) %s%s : gst * res (%s) :=\n%s.' % (coq, STATE_PARAMS, args, COQ_TY[ret], body))
         for p in real:
+            if p[3] is None: continue
             out.append('Definition %s_default_%s : %s := %s.' % (coq, p[0], COQ_TY[p[1]], p[3]))
         ctx.methods[py] = Sig(coq, [(p[0], p[1], p[3]) for p in real], ret, set(tr.assigned))
     return '\n'.join(out) + '\n'
